@@ -435,6 +435,37 @@ fn build_prov(c: &Case, cfg: &RunCfg) -> Prov {
     p
 }
 
+/// The second problem of a two-solve sequence on one solver: same universe, requirements and soft
+/// requirements in reverse order (what is cached from the first solve is not requested again).
+pub fn second_problem(p: &Prob) -> Prob {
+    let mut q = p.clone();
+    q.reqs.reverse();
+    q.soft.reverse();
+    if q.reqs.len() > 1 {
+        q.reqs.pop();
+    }
+    q
+}
+
+/// One fresh solver (synchronous runtime), two solves: the case's problem, then `second_problem`.
+/// The second observation lists only the provider calls of the second solve.
+pub fn run_case_twice(c: &Case, cfg: &RunCfg) -> (Obs, Option<(Prob, Obs)>) {
+    let tag = format!("sync{}", if cfg!(debug_assertions) { "-debug" } else { "-release" });
+    let prov = build_prov(c, cfg);
+    let mut solver = Solver::new(prov);
+    let res = catch_unwind(AssertUnwindSafe(|| solver.solve(problem(&c.p))));
+    let o1 = finish(c.id, tag.clone(), &mut solver, res, cfg, vec![]);
+    if matches!(o1.outcome, Outcome::Panic(_) | Outcome::Deadlock | Outcome::Hang) {
+        return (o1, None);
+    }
+    let n1 = solver.provider().log.borrow().len();
+    let p2 = second_problem(&c.p);
+    let res2 = catch_unwind(AssertUnwindSafe(|| solver.solve(problem(&p2))));
+    let mut o2 = finish(c.id, tag, &mut solver, res2, cfg, vec![]);
+    o2.calls = o2.calls.split_off(n1);
+    (o1, Some((p2, o2)))
+}
+
 /// One fresh solver, one solve.
 pub fn run_case(c: &Case, cfg: &RunCfg) -> Obs {
     let tag = format!(
